@@ -191,3 +191,164 @@ def register(reg):
         reg.add(disconnect_contract(w, '%s.%s.disconnect' % (m_, c_)))
         reg.add(eio_connect_contract(w, '%s.%s._handle_eio_connect' % (m_, c_)))
         reg.add(eio_disconnect_contract(w, '%s.%s._handle_eio_disconnect' % (m_, c_)))
+
+
+# ============================================================================ _handle_connect (C04)
+CONNECT_T, CONNECT_ERROR_T = smt.box_int(z3.IntVal(0)), smt.box_int(z3.IntVal(4))
+CONN = A('connect')
+REFUSED_EXC = atom('exc:sio.ConnectionRefusedError')
+TYPEERR_EXC = atom('exc:TypeError')
+
+
+def served(st, ns):
+    """the server serves this namespace: a handler or class-based namespace exists for it, or it is listed, or namespaces == '*'"""
+    h, nh = st.get('server', 'handlers'), st.get('server', 'namespace_handlers')
+    nss = st.get('server', 'namespaces').leaf()
+    p = z3.Int('sv_p')
+    listed = z3.If(z3.Or(smt.kind(nss) == smt.K_LIST, smt.kind(nss) == smt.K_TUPLE),
+                   z3.Exists([p], z3.And(p >= 0, p < smt.vlen(nss), smt.vseq(nss)[p] == ns)), smt.vhas(nss, ns))
+    return z3.Or(h.c['dom'][ns], nh.c['dom'][ns], nss == c13.STAR, listed)
+
+
+def out_seq(pre, post, e, preds):
+    """exactly len(preds) more packets on e, the k-th satisfying preds[k]; nothing on any other connection"""
+    o0, o1 = pre.get(*OUT), post.get(*OUT)
+    x = z3.Const('os_e', V)
+    j = z3.Int('os_j')
+    n = o0.c['.len'][e]
+    names = ('ptype', 'ns', 'id', 'data')
+    parts = [o1.c['.len'][e] == n + len(preds)]
+    for k, pr in enumerate(preds):
+        parts.append(pr(lambda f, k=k: o1.c['.' + f][e][n + k]))
+    parts.append(z3.ForAll([j], z3.Implies(z3.And(j >= 0, j < n), z3.And(*[o1.c['.' + f][e][j] == o0.c['.' + f][e][j] for f in names]))))
+    parts.append(z3.ForAll([x], z3.Implies(x != e, z3.And(o1.c['.len'][x] == o0.c['.len'][x], *[o1.c['.' + f][x] == o0.c['.' + f][x] for f in names]))))
+    return z3.And(*parts)
+
+
+def handle_connect_contract(world, target):
+    def ns_(c):
+        return eff_ns(c.a.namespace)
+
+    def dup(c):
+        r = rooms(c.pre)
+        return z3.And(r.c['dom'][ns_(c)], r.c['.dom'][ns_(c)][NONE], r.c['..idom'][ns_(c)][NONE][c.a.eio_sid])
+
+    def admitted(c):
+        return z3.And(served(c.pre, ns_(c)), z3.Not(dup(c)))
+
+    def req(c):
+        d = base_req(c)
+        d.update(issued_ok(c.pre))
+        nss = c.pre.get('server', 'namespaces').leaf()
+        d['namespaces-config'] = z3.Or(smt.kind(nss) == smt.K_LIST, nss == c13.STAR)
+        d['transport-known'] = z3.And(c.pre.get(*ENV).c['dom'][c.a.eio_sid], c.a.eio_sid != NONE)
+        d['ns-not-star'] = ns_(c) != c13.STAR
+        return d
+
+    def pkt(ptype, ns, data_ok):
+        return lambda get: z3.And(get('ptype') == ptype, get('ns') == ns, get('id') == NONE, data_ok(get('data')))
+
+    def sid_payload(r):
+        return lambda D: z3.And(smt.kind(D) == smt.K_DICT, smt.vhas(D, A('sid')), smt.vget(D, A('sid')) == r)
+
+    def dispatches(c):
+        """how the connect handler was invoked: (count, new sid, accepted?, refusal payload ok(D))"""
+        ns, e = ns_(c), c.a.eio_sid
+        d0, d1 = c.pre.get(*DISP), c.post.get(*DISP)
+        n = d0.c['len']
+        env = c.pre.get(*ENV).c['.'][e]
+        has = c13.target_exists(c.pre, 'server', ns, CONN, c13.SERVER_RESERVED)
+        auth = c.a.data
+        given = smt.truthy(auth)
+
+        def entry(i, r, nargs, third=None):
+            parts = [d1.c['event'][i] == CONN, d1.c['ns'][i] == ns, d1.c['args#len'][i] == nargs,
+                     d1.c['args#arr'][i][0] == r, d1.c['args#arr'][i][1] == env]
+            if third is not None:
+                parts.append(d1.c['args#arr'][i][2] == third)
+            return z3.And(*parts)
+        r1 = d1.c['args#arr'][n][0]
+        one = z3.And(log_grew(d0, d1, 1), z3.If(given, entry(n, r1, 3, auth), entry(n, r1, 2)))
+        two = z3.And(z3.Not(given), log_grew(d0, d1, 2), entry(n, r1, 2), d1.c['raised'][n] == TYPEERR_EXC, entry(n + 1, r1, 3, NONE))
+        last = z3.If(d1.c['len'] == n + 2, n + 1, n)
+        return has, one, two, r1, last, d1, d0
+
+    def default_refusal(D):
+        return z3.And(smt.kind(D) == smt.K_DICT, smt.vhas(D, A('message')), smt.vget(D, A('message')) == A('Connection rejected by server'))
+
+    def new_session(c, r):
+        ns, e = ns_(c), c.a.eio_sid
+        d = {'fresh-session-id': z3.And(z3.Not(c.pre.get('g', 'issued').c['.'][r]), r != NONE),
+             'registered': member_rel(c.pre, c.post, added=lambda a, ro, s: z3.And(a == ns, s == r, z3.Or(ro == NONE, ro == r))),
+             'transports-kept': vals_kept(c.pre, c.post), 'owns-the-transport': owns(c.post, e, ns, r)}
+        d.update(inv_m(c.post))
+        d.update(issued_ok(c.post))
+        return z3.And(*d.values())
+
+    def no_session(c):
+        d = {'no-membership-anywhere': member_rel(c.pre, c.post), 'transports-kept': vals_kept(c.pre, c.post),
+             'pending-unchanged': sv_equiv(c.post.get(*PEND), c.pre.get(*PEND)) if False else z3.BoolVal(True)}
+        n, s = z3.Consts('ns_n ns_s', V)
+        d['pending-unchanged'] = z3.ForAll([n, s], pending(c.post, n, s) == pending(c.pre, n, s))
+        d.update(inv_m(c.post))
+        d.update(issued_ok(c.post))
+        return z3.And(*d.values())
+
+    def accepted(c):
+        ns, e = ns_(c), c.a.eio_sid
+        has, one, two, r1, last, d1, d0 = dispatches(c)
+        r = z3.If(has, r1, owner(c.post, ns, e))
+        ret_ok = z3.And(d1.c['raised'][last] == NONE, d1.c['ret'][last] != smt.FALSE)
+        return {'connect-handler-ran-once-with-auth': z3.If(has, z3.And(z3.Or(one, two), ret_ok), sv_equiv(d1, d0)),
+                'answered-with-CONNECT-carrying-the-sid': out_seq(c.pre, c.post, e, [pkt(CONNECT_T, ns, sid_payload(r))]),
+                'session-registered': new_session(c, r), 'connected': connected(c.post, ns, r)}
+
+    def refused(c):
+        ns, e = ns_(c), c.a.eio_sid
+        has, one, two, r1, last, d1, d0 = dispatches(c)
+        by_exc = d1.c['raised'][last] == REFUSED_EXC
+        by_false = z3.And(d1.c['raised'][last] == NONE, d1.c['ret'][last] == smt.FALSE)
+        reason_ok = lambda D: z3.If(by_exc, D == d1.c['err'][last], default_refusal(D))
+        always = c.pre.get('server', 'always_connect').leaf()
+        return {'connect-handler-ran-once-with-auth': z3.And(has, z3.Or(one, two), z3.Or(by_exc, by_false)),
+                'answered-with-the-refusal': z3.If(always,
+                                                   out_seq(c.pre, c.post, e, [pkt(CONNECT_T, ns, sid_payload(r1)), pkt(DISCONNECT_T, ns, reason_ok)]),
+                                                   out_seq(c.pre, c.post, e, [pkt(CONNECT_ERROR_T, ns, reason_ok)])),
+                'fresh-session-id': z3.Not(c.pre.get('g', 'issued').c['.'][r1]),
+                'retains-no-membership': no_session(c)}
+
+    def raised_(c):
+        ns, e = ns_(c), c.a.eio_sid
+        has, one, two, r1, last, d1, d0 = dispatches(c)
+        always = c.pre.get('server', 'always_connect').leaf()
+        return {'connect-handler-ran': z3.And(has, z3.Or(one, two, z3.And(z3.Not(smt.truthy(c.a.data)), log_grew(d0, d1, 2)))),
+                'session-stays-until-the-transport-ends': new_session(c, r1),
+                'sent': z3.If(always, out_seq(c.pre, c.post, e, [pkt(CONNECT_T, ns, sid_payload(r1))]), sv_equiv(c.post.get(*OUT), c.pre.get(*OUT)))}
+
+    def turned_away(c):
+        ns, e = ns_(c), c.a.eio_sid
+        return {'no-handler-runs': sv_equiv(c.post.get(*DISP), c.pre.get(*DISP)),
+                'answered-with-CONNECT_ERROR': out_seq(c.pre, c.post, e, [pkt(CONNECT_ERROR_T, ns, lambda D: D == A('Unable to connect'))]),
+                'no-membership-gained': no_session(c)}
+    return Contract(
+        target=target, schema=world, self_obj='server', params={'eio_sid': 'V', 'namespace': 'V', 'data': 'V'},
+        requires=req,
+        cases=[Case('not-served-or-already-connected', when=lambda c: z3.Not(admitted(c)), post=turned_away),
+               Case('accepted', when=admitted, post=accepted, group='admitted'),
+               Case('refused', when=admitted, post=refused, group='admitted'),
+               Case('connect-handler-raises', when=admitted, kind='raise', exc='Exception', post=raised_)],
+        modifies=[ROOMS, CBS, PEND, DISP, CALLS, OUT, ('g', 'raw'), ('g', 'issued')], props=['C04', 'C11'],
+        must_fail=lambda c: {'accepted:claims-no-answer': sv_equiv(c.post.get(*OUT), c.pre.get(*OUT))})
+
+
+def register2(reg):
+    for w, m_, c_ in ((worlds.SERVER, 'server', 'Server'), (worlds.ASYNC_SERVER, 'async_server', 'AsyncServer')):
+        reg.add(handle_connect_contract(w, '%s.%s._handle_connect' % (m_, c_)))
+
+
+_register1 = register
+
+
+def register(reg):
+    _register1(reg)
+    register2(reg)
